@@ -14,15 +14,15 @@ CHECKS = {
    design="5/C03", technique="Coq proof (heap invariant + merge invariant by induction on remaining records) + extracted-model differential tie",
    note="per-table seek is the model reader's (C02); Go runtime, slices and interfaces modelled as lists; tie = differential testing with generated stacks"),
  "C07": dict(
-   text="Coq theorems at the level of decoded tables: compacting ANY contiguous range (and any sequence of such compactions) leaves the stack's ref view and reflog view identical; tombstones survive unless the range starts at the bottom; result ranges stay increasing. Tied on every run: real Stack histories (Add, auto-compaction, compactRange of arbitrary ranges, CompactAll) vs the composed model (byte-exact model writer + model reader + compact_range + suggest); view-level oracle on the implementation's own observations",
+   text="Coq theorems at two levels. Decoded tables: compacting ANY contiguous range (and any sequence of such compactions) leaves the stack's ref view and reflog view identical; tombstones survive unless the range starts at the bottom; result ranges stay increasing. Byte level (C07_bytes_history, over Model/StackSeq.v = merge, WRITE the table bytes, READ them back, composed from the C01 round-trip theorem): for ANY history of Adds (with/without auto-compaction), multi-table Additions, compactions of arbitrary ranges, CompactAll and expiry, in any write configuration, the view after every step equals a specification that never mentions tables (only successful Adds and expiry change it); a failed or refused operation has no effect; Add succeeds iff its transaction is applied. Tied on every run: real Stack histories (Add, auto-compaction, compactRange of arbitrary ranges, CompactAll) vs the composed model (byte-exact model writer + model reader + compact_range + suggest); view-level oracle on the implementation's own observations",
    design="5/C07", technique="Coq proof (overlay algebra via lookup extensionality) + extracted-model differential tie on stack histories",
-   note="theorem is over decoded tables; write/read-back of the merged records rests on the C01 tie/theorems; single handle (interleavings are C04)"),
+   note="byte-level theorems assume transaction records in the writer's documented domain and every written file < 2^64 bytes (hist_ok, shown satisfiable by a vm_compute example with the stored codec); zlib by the three C01 hypotheses; single handle (interleavings are C04)"),
  "C12": dict(
    text="Coq theorems: the validator as coded (sort.SearchStrings, prefix scan skipping deleted names, parent walk) accepts a transaction IFF the resulting set of live names is conflict-free, for all views and transactions; invariant over all histories; delete-a-and-create-a/b accepted; multi-table Additions (C12_addition: every table validated against the view including the Addition's earlier tables); tied on every run through Stack.Add and through NewAddition/Add.../Commit with 2..3 tables over a conflict-rich 14-name alphabet, with the extracted conflict_free_b as oracle",
    design="5/C12", technique="Coq proof (sound+complete validator, invariant by induction over histories) + extracted-model differential tie",
    note="a multi-table Addition is judged table by table (what the code does after fix S5; C12_addition_pinned_refuted is the regression statement for the pinned behaviour); linear scan in place of binary search on ascending input"),
  "C13": dict(
-   text="Coq theorems: CompactAll with an expiry configuration yields exactly filter keep_log of the previous reflog view with refs untouched, for all stacks and all configurations; keep_log is proved equivalent to the documented rule (time strictly older / index outside window; 0 = unset). Tied on every run: real CompactAll(expiry) on histories vs the composed model, oracle computed from the implementation's own before/after views",
+   text="Coq theorems: CompactAll with an expiry configuration yields exactly filter keep_log of the previous reflog view with refs untouched, for all stacks and all configurations; keep_log is proved equivalent to the documented rule (time strictly older / index outside window; 0 = unset). C13_bytes_exact: the same for the byte-level composition (merge, filter, write the bytes, read them back). Tied on every run: real CompactAll(expiry) on histories vs the composed model, oracle computed from the implementation's own before/after views",
    design="5/C13", technique="Coq proof (corollary of the compaction algebra) + extracted-model differential tie",
    note="as C07"),
  "C01": dict(
